@@ -995,6 +995,17 @@ pub fn run(tier: &str, threads: usize, max_wall_s: f64, leftover_mode: bool) -> 
                 };
                 let j = &j;
                 let r = check_image(&mut wk, &scratch, &j.h.cfg, &j.img);
+                // a timeout may be machine load: the image gets a second, patient attempt in a fresh
+                // worker before it counts as a hang
+                let r = if r == "TIMEOUT" {
+                    wk = crate::corrupt::WorkerHandle::spawn();
+                    wk.timeout_s = 180;
+                    let x = check_image(&mut wk, &scratch, &j.h.cfg, &j.img);
+                    wk.timeout_s = 20;
+                    x
+                } else {
+                    r
+                };
                 checked.fetch_add(1, Ordering::Relaxed);
                 let model_s = if j.model == FsModel::Posix { "posix" } else { "linux" };
                 *per_model.lock().unwrap().entry(model_s.to_string()).or_insert(0) += 1;
@@ -1112,6 +1123,7 @@ pub fn replay(rp: &CrashReplay) -> String {
         })
         .collect();
     let mut wk = crate::corrupt::WorkerHandle::spawn();
+    wk.timeout_s = 180;
     let r = check_image(&mut wk, &root, &rp.cfg, &img);
     wk.kill();
     let res = if rp.property == "C20" {
